@@ -16,7 +16,8 @@ import (
 func zzH18seq() {
 	rec, st := &zzRec{}, &zzState{}
 	now := zzNondetInstant("now", false)
-	m := &Monitor{cctx: zzNewContext(rec, st), iface: "eth1", now: func() time.Time { return now }}
+	m := NewMonitor(zzNewContext(rec, st), "eth1", nil, nil, false)
+	m.now = func() time.Time { return now }
 	zoned := zzNondetChoice("zoned", 2) == 1
 	// link-local, global and unique-local senders (the socket layer attaches
 	// the interface zone to every sender)
